@@ -77,6 +77,28 @@ def step (line : String) : String :=
       let shared := inputs.any fun a => sharesMemory res a
       s!"ok shared={b01 shared} inputs_unchanged={b01 unchanged} rows={res.len}"
     | none => "bad-op"
+  | "mcall" :: rest =>
+    let call? : Option MCall := match rest with
+      | ["copy"] => some .copy | ["deepcopy"] => some .deepcopy | ["pickle"] => some .pickle
+      | ["construct"] => some .construct | ["frommodel"] => some .fromModel
+      | ["relabelcopy"] => some .relabelCopy | ["relabelintscopy"] => some .relabelIntsCopy
+      | ["changevartypecopy"] => some .changeVartypeCopy | ["fixvariablescopy"] => some .fixVariablesCopy
+      | ["spintobinarycopy", s] => some (.spinToBinaryCopy (s = "1"))
+      | ["arith"] => some .arith | ["radd", z] => some (.radd (z = "1")) | ["neg"] => some .neg | ["pos"] => some .pos
+      | ["view"] => some .view
+      | _ => none
+    match call? with
+    | some c =>
+      let st : MSt := { native := fun k => [((k : Nat) : Int)], vars := fun k => [k], next := 2 }
+      let o : Mdl := { handle := 0, variables := 1 }
+      let (st', r) := c.run st o (fun x => x) (fun x => x)
+      s!"ok data={b01 (r.handle = o.handle)} variables={b01 (r.variables = o.variables)} receiver_unchanged={b01 (st'.native 0 == st.native 0 && st'.vars 1 == st.vars 1)}"
+    | none => "bad-op"
+  | ["addcqm", kind, copy, co] =>
+    let st : MSt := { native := fun k => [((k : Nat) : Int) + 5], vars := fun k => [k], next := 2 }
+    let src : Mdl := { handle := 0, variables := 1 }
+    let (st', h) := if kind = "discrete" then addDiscreteFromComparison st src (copy = "1") (co = "1") else addConstraint st src (copy = "1")
+    s!"ok source_unchanged={b01 (st'.native 0 == st.native 0)} source_cleared={b01 (st'.native 0 == [])} constraint_holds_data={b01 (st'.native h == st.native 0)}"
   | "model" :: rest => match parseMOp? rest with
     | some op =>
       let o : MObj := { data := 0, variables := 1 }
